@@ -1,11 +1,12 @@
 """C16 — generated getters (`#[emit_rule_reference]`) return exactly the referenced sub-nodes that matched.
 
 Ties
-* T-gen   : the accessor functions /repo's generator emits (generator run as a library by
-            harness/getters_tool: rule, name, return type, path expression, `&*self.content` prefix) versus the
-            Lean model's `genGetters` / `expand` text (`model_driver`: `getters list`), for the optimized AST
-            and for `#[pest_optimizer = false]`: names, order (BTreeMap), types (modulo the generic arguments of
-            the rule structs) and paths must be textually equal;
+* T-gen   : the accessor functions /repo's generator emits, read back STRUCTURALLY by harness/getters_tool (the generator
+            run as a library; the body is evaluated symbolically into its chain of field / method hops, so variable names,
+            `; res`, `.map` vs `.and_then(Some)` do not matter): rule, name, return type shape (Option / Vec / tuple, rule
+            names), getter path (hops, indices, flatten flags, tuple shape), boxed content — versus the Lean model's
+            `genGetters` trees (`model_driver`: `getters list`), for four derivations: optimized AST, `pest_optimizer =
+            false`, and both with `box_only_if_needed` (expected boxing = port of `collect_reachability`);
 * T-run   : a workspace generated FROM THE MODEL'S LISTING calls every accessor on every accepted input, flattens the
             result (nested Option / Vec / tuples) to the list of references and prints each reference as its token
             list, and ALSO prints the unflattened result in a canonical rendering; the model prints `flatten (evalGetter …)`
@@ -86,7 +87,7 @@ class Peg:
 
     def __init__(self, sexp, variant):
         sx = corpus.parse_sexp(sexp)
-        k = 3 if variant == "opt" else 4
+        k = 3 if variant.startswith("opt") else 4
         # every `Ident` occurrence of a rule's expression gets its mention-site number (left to right)
         self.rules = {r[1]: (r[2], annotate(r[k], [0])) for r in sx[2:]}
         self.has_w = "WHITESPACE" in self.rules
@@ -405,44 +406,92 @@ def mention_sites(expr, x):
     return out
 
 
-OPT_T = "::pest_typed::re_exported::Option::<"
-VEC_T = "::pest_typed::re_exported::Vec::<"
-
-
 def parse_type(t):
-    """Declared return type (white-space free text) -> ('L',) | ('O', t) | ('V', t) | ('T', [t…])."""
-    pos = 0
+    """Declared return type as getters_tool / the model print it, `(ref x) | (opt T) | (vec T) | (tuple T …)`
+    -> ('L',) | ('O', t) | ('V', t) | ('T', [t…])."""
+    def conv(e):
+        assert isinstance(e, list) and e, e
+        if e[0] == "ref":
+            return ("L",)
+        if e[0] == "opt":
+            return ("O", conv(e[1]))
+        if e[0] == "vec":
+            return ("V", conv(e[1]))
+        assert e[0] == "tuple" and len(e) >= 3, e
+        return ("T", [conv(c) for c in e[1:]])
+    return conv(corpus.parse_sexp(t))
 
-    def rd():
-        nonlocal pos
-        if t.startswith(OPT_T, pos):
-            pos += len(OPT_T)
-            inner = rd()
-            assert t[pos] == ">", t[pos:]
-            pos += 1
-            return ("O", inner)
-        if t.startswith(VEC_T, pos):
-            pos += len(VEC_T)
-            inner = rd()
-            assert t[pos] == ">", t[pos:]
-            pos += 1
-            return ("V", inner)
-        if t[pos] == "(":
-            pos += 1
-            items = [rd()]
-            while t[pos] == ",":
-                pos += 1
-                items.append(rd())
-            assert t[pos] == ")", t[pos:]
-            pos += 1
-            return ("T", items)
-        m = re.compile(r"&'ssuper::super::rules::r#\w+").match(t, pos)
-        assert m, t[pos:]
-        pos = m.end()
-        return ("L",)
-    r = rd()
-    assert pos == len(t), t[pos:]
-    return r
+
+def norm_path(p):
+    """Canonical form of a getter path S-expression: `.content` / `.content.i.matched` hops in front of a tuple are moved
+    into its components (same function, same type; getters_tool sees them there because a tuple expression evaluates every
+    component from the same `res`)."""
+    def dist(head, inner):
+        if inner[0] == "tuple":
+            return ["tuple"] + [dist(head, c) for c in inner[1:]]
+        return head + [inner]
+
+    def go(e):
+        k = e[0]
+        if k == "rule":
+            return ["rule"]
+        if k == "content":
+            return dist(["content"], go(e[1]))
+        if k == "seq":
+            return dist(["seq", e[1]], go(e[2]))
+        if k == "opt":
+            return ["opt", e[1], go(e[2])]
+        if k == "choice":
+            return ["choice", e[1], e[2], go(e[3])]
+        if k == "rep":
+            return ["rep", go(e[1])]
+        if k == "tuple":
+            return ["tuple"] + [go(c) for c in e[1:]]
+        return e
+    try:
+        return go(corpus.parse_sexp(p))
+    except (IndexError, TypeError):
+        return ["unparsable", p[:200]]
+
+
+def not_boxed(sexp, variant):
+    """Port of `collect_reachability` (generator/src/graph.rs): the rules that do not (transitively, as that fix-point computes
+    it) use themselves keep an unboxed content field under `#[box_only_if_needed]`."""
+    sx = corpus.parse_sexp(sexp)
+    k = 3 if variant.startswith("opt") else 4
+    rules = [(r[1], r[2], r[k]) for r in sx[2:]]
+    names = {r[0] for r in rules}
+
+    def idents(e, out):
+        if isinstance(e, list):
+            if e[0] == "ident":
+                out.add(e[1])
+            else:
+                for c in e[1:]:
+                    idents(c, out)
+    res = {}
+    for name, kind, expr in rules:
+        used = set()
+        if kind == "normal":
+            used |= {n for n in ("COMMENT", "WHITESPACE") if n in names}
+        idents(expr, used)
+        res[name] = used
+    for _ in range(len(rules)):
+        updated = False
+        for name, _, _ in rules:
+            if name in res:
+                cur = res.pop(name)
+                new = set(cur)
+                for ref in cur:
+                    if ref in res:
+                        new |= res[ref]
+                if len(new) > len(cur):
+                    updated = True
+                if name not in new:
+                    res[name] = new
+        if not updated:
+            break
+    return set(res)
 
 
 def type_leaves(ty, chain=()):
@@ -539,10 +588,20 @@ def run_model(sexp_path, lines, nproc=NPROC):
     chunks = [lines[i:i + size] for i in range(0, len(lines), size)]
 
     def run(chunk):
-        p = subprocess.run([G.DRIVER, sexp_path], input="\n".join(chunk) + "\n", capture_output=True, text=True)
-        got = p.stdout.split("\n")
-        if got and got[-1] == "":
-            got.pop()
+        # the driver binary is shared and may be re-linked by a concurrent `lake build` (exec fails / dies at start-up):
+        # an incomplete answer is retried, never accepted
+        got = []
+        for attempt in range(4):
+            try:
+                p = subprocess.run([G.DRIVER, sexp_path], input="\n".join(chunk) + "\n", capture_output=True, text=True)
+                got = p.stdout.split("\n")
+                if got and got[-1] == "":
+                    got.pop()
+                if p.returncode == 0 and len(got) >= len(chunk):
+                    break
+            except OSError:
+                got = []
+            time.sleep(3 + 5 * attempt)
         got += ["v=missing"] * (len(chunk) - len(got))
         return got[:len(chunk)]
     out = []
@@ -564,14 +623,26 @@ def suite_getters(tier, seed):
     open(sexp, "w").write("\n".join(g["sexp"] for g in ok) + "\n")
     t1 = time.time()
     mlist = G.model_list(sexp, ok)
-    tlist = G.tool_list(ok)
+
+    def variants_of(g):
+        # `#[box_only_if_needed]` derivations: every grammar in the thorough tier; in the quick tier the systematic and
+        # handwritten grammars and every fourth seeded one
+        tail = g["gid"].rsplit("_", 1)[-1]
+        if tier != "quick" or g["gid"][:2] in ("h_", "s_") or not tail.isdigit() or int(tail) % 4 == 0:
+            return G.VARIANTS
+        return ("opt", "raw")
+    tlist = {}
+    for vs in (("opt", "raw"), G.VARIANTS):
+        sel = [g for g in ok if tuple(variants_of(g)) == vs]
+        if sel:
+            tlist.update(G.tool_list(sel, vs))
     t2 = time.time()
     # grammars the generator itself rejects in one variant are left out of the workspace (and reported)
     skip = {k for k, v in tlist.items() if isinstance(v, str)}
     ws = os.path.join(BUILD, f"ws_c16_{tier}")
     prefix = G.PREFIX + tier[0]          # c16gq0.. / c16gt0..: the tiers share one target directory
-    where = G.emit_workspace(ok, mlist, ws, suites.NBINS, skip, prefix)
-    rc, err = corpus.build_workspace(ws)
+    where = G.emit_workspace(ok, mlist, ws, suites.NBINS, skip, prefix, variants_of)
+    rc, err = corpus.build_workspace(ws, target=G.TARGET)
     if rc != 0:
         raise RuntimeError("C16 workspace does not build (an accessor the model lists is not emitted, or the emitted code does not type-check):\n" + err[-4000:])
     t3 = time.time()
@@ -580,17 +651,17 @@ def suite_getters(tier, seed):
     cases = []
     for g in ok:
         ins = corpus.inputs_for(g, rnd, maxlen, 8 if tier == "quick" else 30)
-        for v in G.VARIANTS:
+        for v in variants_of(g):
             if (g["gid"], v) in skip:
                 continue
-            with_getters = {e[0] for e in mlist.get((g["gid"], v), [])} | {e[0] for e in tlist.get((g["gid"], v), [])}
+            with_getters = {e[0] for e in mlist.get((g["gid"], G.base(v)), [])} | {e[0] for e in tlist.get((g["gid"], v), [])}
             for (rule, kind) in g["rules"]:
                 if rule in with_getters:
                     for s in ins:
                         cases.append((g["gid"], rule, v, "str", 0, 0, s))
-    impl = suites.run_bins(prefix, where, cases)
+    impl = suites.run_bins(prefix, where, cases, target=G.TARGET)
     t4 = time.time()
-    model = run_model(sexp, [f"getters run {c[0]} {c[2]} {c[1]} {corpus.hexs(c[6])}" for c in cases])
+    model = run_model(sexp, [f"getters run {c[0]} {G.base(c[2])} {c[1]} {corpus.hexs(c[6])}" for c in cases])
     t5 = time.time()
     meta = {"suite": "c16", "tier": tier, "seed": seed, "wall_s": time.time() - t0,
             "timing": {"validate": t1 - t0, "listings": t2 - t1, "build": t3 - t2, "impl": t4 - t3, "model": t5 - t4},
@@ -664,30 +735,41 @@ def check_C16(ctx):
 def evaluate(ctx, res):
     """Ties and oracles on a finished suite run (separate so that a run can be re-judged, e.g. against a mutated tree)."""
     meta = res.meta
-    # ---- T-gen: listing of the model vs the functions the generator emits
+    # ---- T-gen: the getter trees of the model vs the STRUCTURE of the functions the generator emits
     n_fn, n_bad = 0, 0
     firsts = []
+    nb_cache = {}
     for key, tl in meta["tool_list"].items():
-        ml = [tuple(e) for e in meta["model_list"].get(key, [])]
+        gid, variant = key.split(" ")
+        ml = [tuple(e) for e in meta["model_list"].get(f"{gid} {G.base(variant)}", [])]
         if isinstance(tl, str):
             ctx.tie_broken("T-gen", {"grammar": key, "note": "the generator rejects a grammar pest_meta accepts", "detail": tl[:300]})
             continue
         tl = [tuple(e) for e in tl]
         n_fn += max(len(tl), len(ml))
-        got = [(r, x, ty, path) for (r, x, ty, prefix, path) in tl]
-        if got != ml:
-            bad = [(a, b) for a, b in zip(got + [None] * len(ml), ml + [None] * len(got)) if a != b and (a or b)]
+        got = [(r, x, corpus.parse_sexp(ty) if ty.startswith("(") else ty, path if not path.startswith("(") else corpus.parse_sexp(path))
+               for (r, x, ty, boxed, path) in tl]
+        want = [(r, x, corpus.parse_sexp(ty) if ty.startswith("(") else ty, norm_path(path)) for (r, x, ty, path) in ml]
+        if got != want:
+            bad = [(a, b) for a, b in zip(got + [None] * len(want), want + [None] * len(got)) if a != b and (a or b)]
             n_bad += len(bad)
             if len(firsts) < 5:
                 firsts.append({"grammar": key, "generator": bad[0][0], "model": bad[0][1]})
-        for (r, x, ty, prefix, path) in tl:
-            if prefix != "&*self.content":      # default options box every rule
+        # `let res = &*self.content` (boxed content) / `&self.content`: every rule is boxed unless `box_only_if_needed`
+        if variant.endswith("box"):
+            if key not in nb_cache:
+                nb_cache[key] = not_boxed(res.grammars[gid]["sexp"], variant)
+        for (r, x, ty, boxed, path) in tl:
+            exp_boxed = "0" if variant.endswith("box") and r in nb_cache[key] else "1"
+            if boxed != exp_boxed:
                 n_bad += 1
                 if len(firsts) < 5:
-                    firsts.append({"grammar": key, "rule": r, "getter": x, "prefix": prefix, "expected": "&*self.content"})
-    ctx.ties["T-gen:accessor-text"] = {"cases": n_fn, "agree": n_fn - n_bad, "observables": ["rule", "name", "return type", "path", "content prefix"]}
+                    firsts.append({"grammar": key, "rule": r, "getter": x, "content_is_dereferenced": boxed, "expected": exp_boxed})
+    ctx.ties["T-gen:accessor-structure"] = {"cases": n_fn, "agree": n_fn - n_bad,
+                                            "observables": ["rule", "name", "return type (Option/Vec/tuple shape, rule names)",
+                                                            "path (field / method hops, indices, flatten flags, tuple shape)", "content boxed"]}
     if n_bad:
-        ctx.tie_broken("T-gen:accessor-text", {"disagreements": n_bad, "first": firsts})
+        ctx.tie_broken("T-gen:accessor-structure", {"disagreements": n_bad, "first": firsts})
     # ---- T-run: flattened results, implementation vs model
     ctx.tie("T-run:getters", res, ["v", "end", "tok", "get", "st"])
     # ---- oracles
@@ -697,16 +779,16 @@ def evaluate(ctx, res):
     distinct = set()
     ment_cache = {}
     site_cache = {}
-    # declared return types as the generator emits them (white-space free text, T-gen), parsed
+    # declared return types as the generator emits them (read structurally by getters_tool), parsed
     types = {}
     for key, tl in meta["tool_list"].items():
         if isinstance(tl, str):
             continue
         gid, variant = key.split(" ")
-        for (r, x, ty, prefix, path) in tl:
+        for (r, x, ty, boxed, path) in tl:
             try:
                 types[(gid, variant, r, x)] = parse_type(ty)
-            except (AssertionError, IndexError) as ex:
+            except (AssertionError, IndexError, TypeError) as ex:
                 ctx.tie_broken("T-gen:return-type-syntax", {"grammar": key, "rule": r, "getter": x, "type": ty[:300]})
     for c, io, mo in res.rows():
         gid, rule, variant, s = c[0], c[1], c[2], c[6]
@@ -838,11 +920,11 @@ def evaluate(ctx, res):
         peg = pegs.get((gid, variant)) or Peg(res.grammars[gid]["sexp"], variant)
         kinds = dict(res.grammars[gid]["rules"])
         by_rule = {}
-        for (r, x, ty, prefix, path) in tl:
+        for (r, x, ty, boxed, path) in tl:
             by_rule.setdefault(r, []).append(x)
         # wrapper per mention: the chain of Option / Vec / tuple around slot k of the DECLARED type must be the one the
         # k-th mention's position in the expression calls for
-        for (r, x, ty, prefix, path) in tl:
+        for (r, x, ty, boxed, path) in tl:
             pty = types.get((gid, variant, r, x))
             if pty is None:
                 continue
